@@ -214,3 +214,4 @@ MANIFEST = {
             "Real.log/sum up to rounding. Theorems are exact-arithmetic; float rounding is covered only by the [T] law stream.",
     "technique": "Lean 4 theorems over a hand-written model + differential correspondence with the real code",
 }
+MANIFEST["note"] += " " + py2lean.manifest_note("entropy")
